@@ -124,43 +124,56 @@ def check(ctx):
                 kinds["benign-forwarder"] += 1
                 continue
             key = (f.key, name)
-            if name in (VEC_REMOVE, INDEX) and key not in P.DOCUMENTED:
+            if name in (VEC_REMOVE, INDEX):
                 vl = vl or VecLen(f)
+                pv = pv or Prov(f)
                 obs = [o for o in vl.obligations if o["bb"] == bi]
                 ok = bool(obs) and all(o["ok"] for o in obs)
-                if ok:
-                    kinds["guarded"] += 1
-                o0 = obs[0] if obs else {}
-                ctx.ob("R-2", "guarded:%s:%s:%s" % (f.key, name.split("::")[-1], o0.get("orig", o0.get("index"))), ok,
-                       "%s at element %s needs %s; length interval on every path here is [%s, %s]" % (
-                           name.split("::")[-1], o0.get("index"), o0.get("need"), o0.get("lo"), o0.get("hi")),
-                       where=f.where(bi),
-                       sample={"fn": f.key, "site": name, "index": o0.get("index"), "len": [o0.get("lo"), o0.get("hi")],
-                               "idiom": (o0.get("idiom") or {}).get("checks")} if f.key.startswith("<mac::CoseMac ") or "Kdf" in f.key else None)
-                continue
-            if key in P.DOCUMENTED:
-                # (a) unreachable from decode, (b) every public function reaching it documents panics
-                unreachable = f.key not in dreach
-                docs_missing = []
-                for g in prog.real_fns():
-                    if not g.is_pub or g.closure_of:
-                        continue
-                    if g.key == f.key or f.key in {cg.def_of(k) for k in _reach(cg, g.key, pub_reach_cache)}:
-                        if not g.doc_panics:
-                            docs_missing.append(g.key)
-                ok = unreachable and not docs_missing and (f.doc_panics or not f.is_pub)
-                if ok:
-                    kinds["documented"] += 1
-                ctx.ob("R-2", "documented:%s:%s" % (f.key, name.split("::")[-1]), ok,
-                       "documented panic (%s): not reachable from any decode entry and every public caller has a `# Panics` section" % P.DOCUMENTED[key],
-                       where=f.where(bi), detail={"reachable_from_decode": not unreachable, "undocumented_public_callers": docs_missing})
-                continue
+                # not discharged by a length fact, outside decoding, and on a field of self: may be a documented refusal
+                # (`&self.signatures[which]`), decided below; everything else is decided here
+                fallthrough = not ok and f.key not in dreach and _panic_subject(prog, f, pv, bi, t, name) is not None
+                if not fallthrough:
+                    if ok:
+                        kinds["guarded"] += 1
+                    o0 = obs[0] if obs else {}
+                    ctx.ob("R-2", "guarded:%s:%s:%s" % (f.key, name.split("::")[-1], o0.get("orig", o0.get("index"))), ok,
+                           "%s at element %s needs %s; length interval on every path here is [%s, %s]" % (
+                               name.split("::")[-1], o0.get("index"), o0.get("need"), o0.get("lo"), o0.get("hi")),
+                           where=f.where(bi),
+                           sample={"fn": f.key, "site": name, "index": o0.get("index"), "len": [o0.get("lo"), o0.get("hi")],
+                                   "idiom": (o0.get("idiom") or {}).get("checks")} if f.key.startswith("<mac::CoseMac ") or "Kdf" in f.key else None)
+                    continue
             if key in P.INVARIANT:
                 ok, why = _invariant(ctx, prog, cg, f, bi, t, P.INVARIANT[key])
                 if ok:
                     kinds["invariant"] += 1
                 ctx.ob("R-2", "invariant:%s:%s:%s" % (f.key, name.split("::")[-1], P.INVARIANT[key]), ok,
                        "site can never fire by %s: %s" % (P.INVARIANT[key], why), where=f.where(bi))
+                continue
+            pv = pv or Prov(f)
+            subj = _panic_subject(prog, f, pv, bi, t, name)
+            if subj is not None:
+                # a documented refusal: (a) not reachable from any decode entry, (b) what it refuses is something the
+                # property allows to be refused (a missing payload / ciphertext, an out-of-range signer index) or a
+                # condition on the caller's own arguments, (c) every public function from which the site is reachable says
+                # so in a `# Panics` section (mentioning the field for (b)-sites)
+                unreachable = f.key not in dreach
+                allowed = subj[0] == "param" or (subj[0] == "field" and subj[1] in P.REFUSABLE_FIELDS)
+                docs_missing = []
+                for g in prog.real_fns():
+                    if not g.is_pub or g.closure_of:
+                        continue
+                    if g.key == f.key or f.key in {cg.def_of(k) for k in _reach(cg, g.key, pub_reach_cache)}:
+                        if not _doc_mentions(g, subj):
+                            docs_missing.append(g.key)
+                ok = unreachable and allowed and not docs_missing
+                if ok:
+                    kinds["documented"] += 1
+                ctx.ob("R-2", "documented:%s:%s" % (f.key, "%s:%s" % subj if subj[0] == "field" else "argument"), ok,
+                       "documented refusal (%s): not reachable from any decode entry and every public function that can reach it says so "
+                       "in a `# Panics` section" % ("self.%s absent / out of range" % subj[1] if subj[0] == "field" else "precondition on argument %s" % subj[1]),
+                       where=f.where(bi), detail={"reachable_from_decode": not unreachable, "subject": subj, "allowed_subject": allowed,
+                                                  "public_callers_without_matching_docs": docs_missing})
                 continue
             ctx.ob("R-2", "unclassified:%s:%s" % (f.key, name), False,
                    "panic-capable call of %s in %s is neither guarded, documented nor a known invariant%s" % (
@@ -172,11 +185,7 @@ def check(ctx):
         ctx.count("ledger_" + k, v)
     ctx.floor("R-2", "panic-capable sites enumerated", n_sites, 150)
     ctx.floor("R-2", "guarded sites", kinds["guarded"], 25)
-    for key in list(P.DOCUMENTED) + list(P.INVARIANT):
-        fk, cal = key
-        present = fk in prog.fns and any(callee_path(t) == cal for _, t in prog.fns[fk].calls())
-        ctx.ob("R-2", "table-entry-present:%s:%s" % (fk, cal.split("::")[-1]), present,
-               "ledger table entry (%s, %s) exists in the code" % (fk, cal), kind="missing-anchor")
+    ctx.floor("R-2", "documented refusals", kinds["documented"], 8)
 
     # ---- R-3 recursion ---------------------------------------------------------------
     sccs = cg.sccs(dreach_nodes)
@@ -188,8 +197,8 @@ def check(ctx):
     # ---- R-4 loops --------------------------------------------------------------------
     nloops = 0
     for k in sorted(dreach):
-        f = prog.fns[k]
-        if not f.blocks or k in prog.fully_inlined:
+        f = prog.fns.get(k)
+        if f is None or not f.blocks or k in prog.fully_inlined:   # None: an enum constructor used as a function value
             continue
         for header, body in f.cfg.loops():
             nloops += 1
@@ -198,6 +207,51 @@ def check(ctx):
                    "loop in %s advances a consuming std iterator created before the loop on every iteration" % f.key,
                    where=f.where(header), detail=why, sample={"fn": f.key, "iterator": why.get("iter")})
     ctx.floor("R-4", "decode loops", nloops, 7)
+
+
+def _self_field(t):
+    """name of the field of `self` (or of the value a builder wraps) a term reads, else None"""
+    for s in subterms(t):
+        if isinstance(s, tuple) and s and s[0] == "field":
+            b = s[1]
+            while b[0] in ("deref", "ref") or (b[0] == "field" and b[2] == "0"):
+                b = b[1]
+            if b == ("param", 0) and s[2] != "0":
+                return s[2]
+    return None
+
+
+def _panic_subject(prog, f, pv, bi, t, name):
+    """what a panic-capable site refuses: ('field', name) - a field of self is absent / too short;
+    ('param', name) - a condition on the caller's own arguments; None - anything else"""
+    args = [pv.operand_term(a, bi, "term") for a in t["args"]]
+    if name in (P.UNWRAP_O, P.EXPECT_O, P.UNWRAP_R, P.EXPECT_R, VEC_REMOVE, INDEX) and args:
+        fld = _self_field(args[0])
+        return ("field", fld) if fld else None
+    if (t.get("callee") or {}).get("never"):
+        from lib.guards import conditions
+        for c in reversed(conditions(f, pv, bi)):
+            fld = _self_field(c[0])
+            if fld:
+                return ("field", fld)
+            ps = [s[1] for s in subterms(c[0]) if isinstance(s, tuple) and s and s[0] == "param" and s[1] > 0]
+            if ps:
+                return ("param", f.local_name(ps[0] + 1) or "#%d" % ps[0])
+    return None
+
+
+def _panics_section(g):
+    import re
+    m = re.search(r"# Panics\s*(.*?)(\n\s*# |\Z)", g.doc or "", re.S)
+    return m.group(1).lower() if m else ""
+
+
+def _doc_mentions(g, subj):
+    if not g.doc_panics:
+        return False
+    if subj[0] == "field":
+        return subj[1].lower() in _panics_section(g)
+    return True
 
 
 def _raw_pointers_come_from_boxes(f, pv):
@@ -472,15 +526,15 @@ def _check_scc(ctx, prog, cg, comp):
 
 
 def _is_decrement(a, bp):
-    """budget.checked_sub(1).ok_or(err)?"""
-    if a[0] != "tryok":
-        return False
-    x = a[1]
-    if is_call(x) and x[1].endswith("::ok_or"):
-        x = x[2][0]
-    else:
-        return False
-    return is_call(x) and x[1].endswith("::checked_sub") and x[2][0] == ("param", bp) and x[2][1] == ("const", 1)
+    """the Some payload of budget.checked_sub(1): `budget.checked_sub(1).ok_or(err)?`, `match budget.checked_sub(1)
+    { Some(d) => d, None => return Err(..) }`, `let Some(d) = .. else { return .. }` - whatever happens in the None
+    case, a call that receives this value received budget - 1 with budget >= 1"""
+    x = None
+    if a[0] == "tryok" and is_call(a[1]) and a[1][1].endswith("::ok_or"):
+        x = a[1][2][0]
+    elif a[0] == "field" and a[2] == "0" and a[1][0] == "variant" and a[1][2] == "Some":
+        x = a[1][1]
+    return x is not None and is_call(x) and x[1].endswith("::checked_sub") and x[2][0] == ("param", bp) and x[2][1] == ("const", 1)
 
 
 def _has_cycle(g):
